@@ -67,8 +67,21 @@ AllFields(C, sels, i, seen) ==
 ArgPresent(C, a) == a.val.k # "var" \/ Supplied(C, a.val.name) \/ VarDef(C, a.val.name).hasDefault
 ArgValue(C, a) == IF a.val.k # "var" THEN a.val
                   ELSE IF Supplied(C, a.val.name) THEN SuppliedVal(C, a.val.name) ELSE VarDef(C, a.val.name).default
-ExpectedArgs(C, n) == {[name |-> n.args[k].name, val |-> ArgValue(C, n.args[k])] : k \in {j \in 1..Len(n.args) : ArgPresent(C, n.args[j])}}
-ViewArgs(v) == {[name |-> v.args[k].name, val |-> v.args[k].val] : k \in 1..Len(v.args)}
+\* input-object literals: an entry given by an omitted variable without default is absent, the others are resolved;
+\* entries are compared as sets (input object fields are unordered)
+RECURSIVE ResolveIn(_, _)
+ResolveIn(C, v) ==
+  IF v.k = "var" THEN (IF Supplied(C, v.name) THEN SuppliedVal(C, v.name) ELSE VarDef(C, v.name).default)
+  ELSE IF v.k = "obj" THEN
+    [k |-> "obj", entries |-> {[key |-> v.entries[i].key, val |-> ResolveIn(C, v.entries[i].val)] :
+                                 i \in {j \in 1..Len(v.entries) : LET w == v.entries[j].val IN
+                                           w.k # "var" \/ Supplied(C, w.name) \/ VarDef(C, w.name).hasDefault}}]
+  ELSE v
+RECURSIVE NormObs(_)
+NormObs(v) == IF v.k = "obj" THEN [k |-> "obj", entries |-> {[key |-> v.entries[i].key, val |-> NormObs(v.entries[i].val)] : i \in 1..Len(v.entries)}]
+              ELSE v
+ExpectedArgs(C, n) == {[name |-> n.args[k].name, val |-> ResolveIn(C, n.args[k].val)] : k \in {j \in 1..Len(n.args) : ArgPresent(C, n.args[j])}}
+ViewArgs(v) == {[name |-> v.args[k].name, val |-> NormObs(v.args[k].val)] : k \in 1..Len(v.args)}
 
 Log(c) == c.obs.log
 StartIdx(c) == {i \in 1..Len(Log(c)) : Log(c)[i].ev = "start"}
